@@ -187,3 +187,134 @@ def rand_modifier(rng, allow=MODS, max_controls=2):
 
 def mod_str(mods):
     return ".".join(m[0] + (f"[{m[1]}]" if len(m) > 1 else "") for m in mods)
+
+
+# --------------------------------------------------------------------------- gates / circuits
+EXP_SAFE_1Q = ["X", "Y", "Z", "H", "I", "S", "RX", "RY", "RZ", "PHASE", "GPi", "GPi2", "RH"]  # T.exp never returns
+
+
+def rand_base_gate(rng, nprng, max_nq, *, symbolic=False, symbols=None, custom=0.15, allow_u3=True,
+                   special=0.3, names=None):
+    """built-in or custom gate acting on <= max_nq qubits; returns (gate, desc).
+    symbolic=True: every returned gate has at least one free symbol."""
+    tab = builtin_table()
+    if rng.random() < custom:
+        nq = rng.randint(1, min(max_nq, 2 if symbolic else 3))
+        cname = rng.choice(["MyGate", "V", "Uc", "custom_a"]) + f"_{rng.randint(0, 99999)}_{nq}q"
+        if symbolic:
+            npar = rng.randint(1, 2)
+            d = symbolic_custom_def(rng, nq, cname + f"p{npar}", npar)
+            syms = symbols or [sympy.Symbol(s) for s in SYMBOL_POOL[:4]]
+            args = [rng.choice(syms) if rng.random() < 0.7 else rand_expr(rng, syms, 1) for _ in range(npar)]
+            if not any(getattr(a, "free_symbols", None) for a in args):
+                args[0] = rng.choice(syms)
+            return d(*args), f"{d.gate_name}({', '.join(map(str, args))})"
+        d = numeric_custom_def(rng, nprng, nq, cname)
+        return d(), f"{cname}<random unitary {nq}q>"
+    if symbolic:
+        cands = sorted(n for n, e in tab.items() if e["kind"] == "param" and e["nq"] <= max_nq
+                       and (allow_u3 or n != "U3") and (names is None or n in names))
+        name = rng.choice(cands)
+        e = tab[name]
+        syms = symbols or [sympy.Symbol(s) for s in SYMBOL_POOL[:4]]
+        params = [rng.choice(syms) if rng.random() < 0.6 else rand_expr(rng, syms, 1) for _ in range(e["nparams"])]
+        if not any(getattr(p, "free_symbols", None) for p in params):
+            params[0] = rng.choice(syms)
+        return e["ref"](*params), f"{name}({', '.join(map(str, params))})"
+    return rand_builtin(rng, max_nq=max_nq, allow_u3=allow_u3, special=special, names=names)
+
+
+def rand_gate(rng, nprng, max_nq, *, symbolic=False, symbols=None, wrap=0.35, unitary_only=True,
+              allow_u3=True, custom=0.15, max_depth=2):
+    """possibly wrapped gate on <= max_nq qubits; returns (gate, desc).
+    Wrappers: controlled(k), dagger, integer power (numeric gates only), exp
+    (numeric 1-qubit gates from EXP_SAFE_1Q, only if not unitary_only)."""
+    depth = 0
+    while depth < max_depth and rng.random() < wrap:
+        depth += 1
+    n_ctrl_budget = 0
+    mods = []
+    for _ in range(depth):
+        kinds = ["dagger", "controlled"]
+        if not symbolic:
+            kinds.append("power_int")
+            if not unitary_only:
+                kinds.append("exp")
+        k = rng.choice(kinds)
+        if k == "controlled":
+            if max_nq - n_ctrl_budget <= 1:
+                k = "dagger"
+            else:
+                c = rng.randint(1, min(2, max_nq - n_ctrl_budget - 1))
+                n_ctrl_budget += c
+                mods.append(("controlled", c))
+                continue
+        if k == "dagger":
+            mods.append(("dagger",))
+        elif k == "power_int":
+            mods.append(("power_int", rng.choice([-2, -1, 0, 2, 3])))
+        elif k == "exp":
+            mods.append(("exp",))
+    base_max = max_nq - n_ctrl_budget
+    has_exp = any(m[0] == "exp" for m in mods)
+    if has_exp:
+        # exp of anything but a plain safe 1-qubit gate can hang inside sympy
+        mods = [m for m in mods if m[0] in ("exp", "dagger")][:2]
+        mods = [("exp",)] + [m for m in mods if m[0] == "dagger"][:1]
+        g, d = rand_base_gate(rng, nprng, 1, custom=0, allow_u3=False, names=EXP_SAFE_1Q)
+    else:
+        g, d = rand_base_gate(rng, nprng, base_max, symbolic=symbolic, symbols=symbols, custom=custom,
+                              allow_u3=allow_u3)
+    for m in mods:
+        g = apply_modifier(g, m)
+    if mods:
+        d = f"{d}.{mod_str(mods)}"
+    return g, d
+
+
+def rand_circuit(rng, nprng, n, length, *, symbolic=False, symbols=None, unitary_only=True, allow_u3=True,
+                 wrap=0.35, custom=0.15, n_qubits_explicit=None, max_gate_nq=3):
+    """random circuit of gate operations on ``n`` qubits; returns (circuit, desc, info)
+    info: dict(nonadjacent=bool, idle=bool, n_ops=int)"""
+    from orquestra.quantum.circuits import Circuit
+
+    ops = []
+    descs = []
+    nonadj = False
+    for _ in range(length):
+        g, d = rand_gate(rng, nprng, min(n, max_gate_nq), symbolic=symbolic, symbols=symbols, wrap=wrap,
+                         unitary_only=unitary_only, allow_u3=allow_u3, custom=custom)
+        qs = rand_qubits(rng, g.num_qubits, n)
+        if len(qs) >= 2 and not is_ascending_adjacent(qs):
+            nonadj = True
+        ops.append(g(*qs))
+        descs.append(f"{d}@{','.join(map(str, qs))}")
+    used = {q for op in ops for q in op.qubit_indices}
+    if n_qubits_explicit is None:
+        n_qubits_explicit = rng.random() < 0.6
+    c = Circuit(ops, n_qubits=n) if n_qubits_explicit else Circuit(ops)
+    idle = c.n_qubits > len(used)
+    return c, f"n={c.n_qubits} [" + "; ".join(descs) + "]", dict(nonadjacent=nonadj, idle=idle, n_ops=len(ops))
+
+
+def gate_np(gate, assignment=None):
+    """the gate's own matrix as a complex ndarray (free symbols substituted from
+    ``assignment``: dict symbol -> number)"""
+    M = gate.matrix
+    if assignment and getattr(M, "free_symbols", None):
+        M = M.subs(assignment)
+    return to_np(M)
+
+
+def ref_unitary(circuit, assignment=None, n=None):
+    """Reference: product in program order of every gate's OWN matrix embedded by
+    bit arithmetic (ref.linalg.embed)."""
+    n = circuit.n_qubits if n is None else n
+    U = np.eye(2**n, dtype=complex)
+    for op in circuit.operations:
+        U = L.embed(gate_np(op.gate, assignment), tuple(op.qubit_indices), n) @ U
+    return U
+
+
+def rand_assignment(rng, symbols):
+    return {s: round(rng.uniform(-3, 3), 6) for s in symbols}
